@@ -1323,7 +1323,21 @@ pub fn run_c07_processes(tier: &str, batch_seed: u64) -> LayerBResult {
                 };
                 let root = runner.layout(&prog, "p", false);
                 let spelling = ["absolute", "bare", "dot-slash", "relative-dir"][((i / 4 + i) % 4) as usize];
-                let cell = Cell { mode: "file".into(), require: None, no_std, target: "O1-absent".into(), peer: String::new(), input: "present".into(), spelling: spelling.into(), fault: None };
+                // every eighth program also meets a system-call fault while its sources are opened or read
+                let fault = if i % 8 == 3 {
+                    let other: Option<String> = prog.files.keys().find(|k| **k != prog.main).cloned();
+                    let k = (i / 8) % 8;
+                    let on = if k >= 4 { other.unwrap_or_else(|| "main".to_string()) } else { "main".to_string() };
+                    let (syscall, error) = [("read", "EINTR"), ("read", "EIO"), ("openat", "EACCES"), ("openat", "EMFILE"), ("read", "EIO"), ("openat", "ENOENT"), ("openat", "EINTR"), ("read", "EINTR")][k as usize];
+                    Some(SyscallFault { syscall: syscall.into(), error: error.into(), when: 1, on })
+                } else {
+                    None
+                };
+                if let Some(f) = &fault {
+                    *result.lock().unwrap().4.entry(format!("syscall fault {}", f.label())).or_insert(0) += 1;
+                }
+                let spelling = if fault.is_some() { "absolute" } else { spelling };
+                let cell = Cell { mode: "file".into(), require: None, no_std, target: "O1-absent".into(), peer: String::new(), input: "present".into(), spelling: spelling.into(), fault };
                 let obs = runner.run_cell(&prog, &cell, &root, &[]);
                 let mut verdict = judge_c07_process(&obs);
                 let strict = prog.files.values().map(|t| gen::nesting_depth_strict(t)).max().unwrap_or(0);
